@@ -35,6 +35,7 @@ pub fn prop() -> HistProp {
         thorough: 30000,
         mk: |_, _, _| Box::new(C07 { ledger: BTreeMap::new(), paid: BTreeMap::new(), nontrivial: false }),
         extra: None,
+        many_batches: 2,
     }
 }
 
